@@ -468,7 +468,8 @@ namespace xsimd
             template <typename ITy0, typename ITy1, typename... ITys>
             constexpr bool is_zip_lo(size_t bsize, ITy0 index0, ITy1 index1, ITys... indices)
             {
-                return index0 == (bsize - (sizeof...(indices) + 2)) && index1 == (2 * bsize - (sizeof...(indices) + 2)) && is_zip_lo(bsize, indices...);
+                // the pair at output lanes (2k, 2k + 1) must be (x[k], y[k])
+                return index0 == (bsize - (sizeof...(indices) + 2)) / 2 && index1 == bsize + (bsize - (sizeof...(indices) + 2)) / 2 && is_zip_lo(bsize, indices...);
             }
 
             constexpr bool is_zip_hi(size_t)
@@ -485,7 +486,8 @@ namespace xsimd
             template <typename ITy0, typename ITy1, typename... ITys>
             constexpr bool is_zip_hi(size_t bsize, ITy0 index0, ITy1 index1, ITys... indices)
             {
-                return index0 == (bsize / 2 + bsize - (sizeof...(indices) + 2)) && index1 == (bsize / 2 + 2 * bsize - (sizeof...(indices) + 2)) && is_zip_hi(bsize, indices...);
+                // the pair at output lanes (2k, 2k + 1) must be (x[n/2 + k], y[n/2 + k])
+                return index0 == bsize / 2 + (bsize - (sizeof...(indices) + 2)) / 2 && index1 == bsize + bsize / 2 + (bsize - (sizeof...(indices) + 2)) / 2 && is_zip_hi(bsize, indices...);
             }
 
             constexpr bool is_select(size_t)
